@@ -305,7 +305,7 @@ func checkC19(cx *Ctx, r *Report) {
 					continue
 				}
 				switch {
-				case a.Op == "LT" && strings.HasPrefix(a.B, "len(") && strings.HasPrefix(a.A, "(phi@"): // loop over the headers
+				case a.Op == "LT" && strings.HasPrefix(a.B, "len(") && (strings.HasPrefix(a.A, "(phi@") || strings.HasPrefix(a.A, "phi@")): // loop over the headers
 				case a.Op == "TRUE" && (strings.HasPrefix(a.A, "next@") || strings.Contains(a.A, "#0")) && !strings.Contains(a.A, "ParseParameter"):
 				case a.Op == "NIL" && !a.Neg && strings.HasSuffix(a.A, "httpforwarded.ParseParameter#1"):
 				case a.Op == "EMPTY" && a.Neg && strings.HasSuffix(a.A, "httpforwarded.ParseParameter#0"):
